@@ -244,7 +244,7 @@ def run(ctx):
                 vals_ = vals
             tasks.append((prog, n, p, vals_))
     # realistic widths on a boundary lattice (the exact engine solves bit decompositions by its weighted-sum rule)
-    wide = [(17, REC.BN128)] if not ctx.thorough else [(8, REC.BN128), (16, REC.BN128), (17, REC.BLS12_381), (33, REC.CURVE25519), (64, REC.BN128)]
+    wide = [(17, REC.BN128), (65, REC.BLS12_381)] if not ctx.thorough else [(8, REC.BN128), (16, REC.BN128), (17, REC.BLS12_381), (33, REC.CURVE25519), (64, REC.BN128)]
     for n, p in wide:
         for prog in programs(n):
             if prog["kinds"][0] == "M" or prog["expr"][1] == "array_assert_eq":
@@ -277,7 +277,7 @@ def run(ctx):
     ctx.cov["rule"] = ("assertion programs (assert_lt/le/eq/ne/gt/ge x SS/SK/BB/BK, assert_zero/nonzero/positive, "
                        "assert_positive(w) and to_bits(w) for every w in 1..n+1, assert_range x 3 kind combinations, "
                        "LinCombBool(x), _ensurebool, PrivValBool, PubValBool, PackIntMod(m).unpack for m in 2..8, Array.assert_eq on two-element arrays) x every "
-                       "operand vector of D(n), and of a boundary lattice for the bitlengths 17 (quick) / 8, 16, 17, 33, 64 (thorough); per vector: accepted / satisfiable (all witness choices, exact engine, "
+                       "operand vector of D(n), and of a boundary lattice for the bitlengths 17, 65 (quick) / 8, 16, 17, 33, 64 (thorough); per vector: accepted / satisfiable (all witness choices, exact engine, "
                        "two ways) / relation; distinct_outcomes counts satisfiable verdicts (both sides of every "
                        "relation occur)")
     ctx.sample({"program": "assert_range(S0, K1, K2)", "inputs": [2, 1, 2], "accepted": False, "satisfiable": False})
